@@ -138,3 +138,66 @@ Example C16_intern_example :
   (forall a b, Nat.eqb a b = true <-> a = b) /\
   cf_cir nat nat nat nat (Cir [Mom [Circ 3 (Cir [Mom [Gate 5 [0; 1] [7]] []] [9]); Gate 5 [0; 1] [7]] [8]] [7])%nat = true.
 Proof. split; [apply Nat.eqb_eq|reflexivity]. Qed.
+
+(* ================= qubit ids (model: Codec/QubitId.v) ================= *)
+From VF Require Import Codec.QubitId Codec.QubitIdProofs.
+
+(* qubit_from_proto_id(qubit_to_proto_id(q)) = q for every qubit of the documented vocabulary: grid and line qubits with
+   any signed coordinates, named qubits whose name is not of another form, couplers between two line, two grid or two
+   named qubits *)
+Theorem C16_qubit_id_roundtrip : forall q, supported q -> from_id (to_id q) = q.
+Proof. exact qubit_id_roundtrip. Qed.
+Print Assumptions C16_qubit_id_roundtrip.
+
+Theorem C16_qubit_id_grid : forall r c, from_id (to_id (Grid r c)) = Grid r c.
+Proof. exact from_to_grid. Qed.
+Print Assumptions C16_qubit_id_grid.
+
+Theorem C16_qubit_id_line : forall x, from_id (to_id (Line x)) = Line x.
+Proof. exact from_to_line. Qed.
+Print Assumptions C16_qubit_id_line.
+
+(* two qubits of the vocabulary never share an id *)
+Theorem C16_qubit_id_injective : forall q1 q2, supported q1 -> supported q2 -> to_id q1 = to_id q2 -> q1 = q2.
+Proof. exact qubit_id_injective. Qed.
+Print Assumptions C16_qubit_id_injective.
+
+(* outside the vocabulary the statement is false (finding circuit:qubit-id-ambiguous): NamedQubit('3') -> LineQubit(3) *)
+Theorem C16_qubit_id_roundtrip_refuted : exists q, from_id (to_id q) <> q.
+Proof. exact qubit_id_roundtrip_refuted. Qed.
+Print Assumptions C16_qubit_id_roundtrip_refuted.
+
+Example C16_qubit_id_example :
+  supported (Coupler (Named [97]) (Named [120; 45; 49])) /\ supported (Line (-12)) /\
+  to_id (Coupler (Grid (-3) 4) (Grid (-2) 4)) = [99; 95; 45; 51; 95; 52; 95; 45; 50; 95; 52].
+Proof. split; [exact supported_example|split; [constructor|reflexivity]]. Qed.
+
+(* ================= sweep values with units (model: Codec/UnitValues.v) ================= *)
+From Coq Require Import QArith Qabs.
+From VF Require Import Codec.UnitValues Codec.UnitValuesProofs.
+
+(* the magnitudes travel in the unit of the first value; read back, every value is the same physical quantity,
+   whatever units the end points of a Linspace / the points of a Points sweep were given in *)
+Theorem C16_unit_values_roundtrip_exact : forall vs e, encode (fun x => x) vs = Some e ->
+  Forall2 (fun v w => (phys w == phys v)%Q) vs (decode e).
+Proof. exact encode_decode_exact. Qed.
+Print Assumptions C16_unit_values_roundtrip_exact.
+
+(* with a rounding of the stored magnitude of relative error eps (float32 / float64), the physical value has relative
+   error eps as well: the unit conversion does not amplify it *)
+Theorem C16_unit_values_roundtrip_rounded : forall (rnd : Q -> Q) (eps : Q) vs e,
+  (forall x, (Qabs (rnd x - x) <= eps * Qabs x)%Q) -> encode rnd vs = Some e ->
+  Forall2 (fun v w => (Qabs (phys w - phys v) <= eps * Qabs (phys v))%Q) vs (decode e).
+Proof. exact encode_decode_rounded. Qed.
+Print Assumptions C16_unit_values_roundtrip_rounded.
+
+(* storing each magnitude as it stands next to the first unit is not a round trip: 500 ns .. 2 us -> 500 ns .. 2 ns *)
+Theorem C16_unit_values_as_they_stand_refuted :
+  exists vs, ~ Forall2 (fun v w => (phys w == phys v)%Q) vs (map (fun v => (fst v, snd (hd (0%Q, 0%Z) vs))) vs).
+Proof. exact magnitudes_as_they_stand_refuted. Qed.
+Print Assumptions C16_unit_values_as_they_stand_refuted.
+
+Example C16_unit_values_example :
+  (forall x, (Qabs ((fun y => y) x - x) <= 0 * Qabs x)%Q) /\
+  encode (fun x => x) [(500 # 1, (-9)%Z); (2 # 1, (-6)%Z)] = Some ([500 # 1; ((2 # 1) * pow10 3)%Q], (-9)%Z).
+Proof. exact rounding_example. Qed.
